@@ -132,6 +132,18 @@ func nontrivial(op string, args []ex, res xp10.Value) bool {
 	return op == "substring"
 }
 
+func usesTree(n *xp10.Node) bool {
+	if n.Op == "path" {
+		return true
+	}
+	for _, k := range n.Kids {
+		if usesTree(k) {
+			return true
+		}
+	}
+	return false
+}
+
 func findingKey(op string, args []ex, why string, v xp10.Value) string {
 	if strings.HasPrefix(why, "accessor:") {
 		// the native result is right, a result accessor converts it wrongly
@@ -196,6 +208,15 @@ func (k *checker) apply(op string, args []ex, level int, _ bool) (ex, bool, bool
 	}
 	o := xpx.Eval(src, tree)
 	ok, why := xpx.Agrees(o, v)
+	if ok && !usesTree(n) {
+		// an expression without location paths gives the same through the other context constructor
+		if m, err, p := xpx.Compile(src, nil); err == nil && p == nil {
+			if o2 := xpx.RunMachineFromMach(m); o2.String() != o.String() {
+				k.c.Report(engine.Violation{Key: "context-constructors-disagree:" + op, Witness: src,
+					Detail: fmt.Sprintf("NewCtxFromCurrent: %s ; NewCtxFromMach: %s", o, o2), Harness: "expr", Replay: engine.JSON(map[string]string{"expr": src})})
+			}
+		}
+	}
 	if nontrivial(op, args, v) {
 		k.c.Nontrivial()
 	}
@@ -243,6 +264,11 @@ func run(c *engine.Ctx) {
 	for _, s := range strLeaves {
 		n := &xp10.Node{Op: "lit", Val: s}
 		pool = append(pool, ex{n: n, v: xp10.Str(s)})
+	}
+	// the context position and size outside every predicate (1 of 1), through whichever constructor
+	// the context was built
+	for _, f := range []string{"position", "last"} {
+		pool = append(pool, ex{n: &xp10.Node{Op: "func", Val: f}, v: xp10.Num(1)})
 	}
 	for _, f := range []string{"true", "false"} {
 		n := &xp10.Node{Op: "func", Val: f}
